@@ -52,6 +52,9 @@ Clauses(e) ==
           <<"converted-fresh", (e.op = "GetConverted" /\ ~e.err) => e.ret.fresh>>,
           <<"converted-layout", (e.op = "GetConverted" /\ ~e.err) => e.ret.layout = e.arg>>,
           <<"converted-length", (e.op = "GetConverted" /\ ~e.err) => e.ret.len = Abs!SLen(e.arg, e.post.nfft)>>,
+          \* frame condition (SpectrumPair.tla): the other live objects report after the operation what they reported before
+          <<"other-live-objects-unaffected",
+               ("others" \in DOMAIN e) => \A k \in 1..Len(e.others) : e.others[k].pre = e.others[k].post>>,
           <<"unchanged-value-changes-nothing",
                (IsSetter(e.op) /\ ~e.err /\ Abs!Succ(a, e.op, e.arg) = {a}) => e.post = a>> }
 
